@@ -57,6 +57,7 @@ bool ops_image(Ctx& c, const json& s, int idx, bool& handled) {
 			if (dyn_bytes(w) != custom) { Proto::mismatch(site + sub, "custom-bytes", where(Scen::hexdiff(dyn_bytes(w), custom))); return false; } }
 		return true; }
 	if (op == "tileset_bad") { auto src = raw(s["bmp"]); Stream::MemoryReader r(src.data(), src.size()); if (!throws([&] { Tileset::ReadTileset(r); })) { Proto::mismatch(site + "/load", "accepted-should-refuse", where("")); return false; }
+		{ Stream::MemoryReader rc(src.data(), src.size()); if (!throws([&] { Tileset::ReadCustomTileset(rc); })) { Proto::mismatch(site + "/load-custom", "accepted-should-refuse", where("the custom-format loader accepted a standard bitmap")); return false; } }
 		BitmapFile b = bmp_from(src); Stream::DynamicMemoryWriter w; if (!throws([&] { Tileset::WriteCustomTileset(w, b); })) { Proto::mismatch(site + "/save", "accepted-should-refuse", where("")); return false; } return true; }
 	if (op == "ts_detect") { auto src = raw(s["bytes"]); Stream::MemoryReader r(src.data(), src.size()); r.Seek(s["pos"].get<uint64_t>()); bool got = Tileset::PeekIsCustomTileset(r); if (got != s["expect"].get<bool>()) { Proto::mismatch(site, "value", where("")); return false; }
 		{ Stream::MemoryReader r2(src.data(), src.size()); r2.Seek(s["pos"].get<uint64_t>()); if (Tileset::PeekIsCustomTileset(std::move(r2)) != got) { Proto::mismatch(site, "entry-points-differ", where("")); return false; } }
@@ -128,5 +129,18 @@ bool ops_image(Ctx& c, const json& s, int idx, bool& handled) {
 		// (the pixel rows handed in may carry non-zero padding, which the writer zeroes: the headers and the palette must be equal, the pixels are compared through the bytes above)
 		if (!(b2.bmpHeader == b.bmpHeader && b2.imageHeader == b.imageHeader)) { Proto::mismatch(site, "round-trip-not-equal", where("the object read back differs from the factory-made one (file header size " + std::to_string(b.bmpHeader.size) + " vs " + std::to_string(b2.bmpHeader.size) + ")")); return false; }
 		if (throws([&] { b.Validate(); })) { Proto::mismatch(site, "field", where("Validate() refuses a factory-made bitmap")); return false; }
+		return true; }
+	// ---- C08: the factories at the edges of what they accept (depth, palette length, width around 2^31, pixel argument of the wrong length) ----
+	if (op == "bmp_factory_edge") { const uint16_t bc = s["bc"].get<uint16_t>(); const uint32_t w = s["whi"].get<uint32_t>() * 65536u + s["wlo"].get<uint32_t>(); const int32_t h = s["h"].get<int32_t>();
+		const std::size_t np = s["npal"]; const int delta = s["delta"]; const bool want = s["expect"] == "ok"; std::vector<Color> pal(np, Color{1, 2, 3, 0}); BitmapFile b; bool refused;
+		if (delta == -99) refused = np == 0 ? throws([&] { b = BitmapFile::CreateIndexed(bc, w, h); }) : throws([&] { b = BitmapFile::CreateIndexed(bc, w, h, pal); });
+		else { std::vector<uint8_t> px(s["rows"].get<std::size_t>() * s["pitch"].get<std::size_t>() + delta, 7); refused = throws([&] { b = BitmapFile::CreateIndexed(bc, w, h, pal, px); }); }
+		if (refused == want) { Proto::mismatch(site, refused ? "refused-should-accept" : "accepted-should-refuse", where("depth " + std::to_string(bc) + " width " + std::to_string(w) + " height " + std::to_string(h))); return false; }
+		if (refused) return true;
+		if (throws([&] { b.Validate(); })) { Proto::mismatch(site, "field", where("Validate() refuses a factory-made bitmap")); return false; }
+		if ((uint32_t)b.imageHeader.width != w || b.imageHeader.height != h || b.imageHeader.bitCount != bc) { Proto::mismatch(site, "field", where("geometry")); return false; }
+		std::vector<unsigned char> out; if (throws([&] { out = bmp_bytes(b); })) { Proto::mismatch(site, "write-refused", where("")); return false; }
+		if (s["rows"].get<int>() == 0 && out.size() != s["emptyLen"].get<std::size_t>()) { Proto::mismatch(site, "bytes", where("length " + std::to_string(out.size()))); return false; }
+		BitmapFile b2; if (throws([&] { b2 = bmp_from(out); }) || !(b2.imageHeader == b.imageHeader) || !(b2.bmpHeader == b.bmpHeader) || b2.palette != b.palette) { Proto::mismatch(site, "round-trip-not-equal", where("")); return false; }
 		return true; }
 	OPS_EPILOGUE }
